@@ -9,10 +9,23 @@ CONSTANTS Stride
 VARIABLE vIdx
 Rec == ndJsonDeserialize(IOEnv.TRACE)
 NRec == Len(Rec)
+\* BIG trees (thousands of levels: deeper than the JSON readers accept) arrive as a description -- a left-deep
+\* chain of n members under one operator (or the three in turn), every member the test `fill` except the member at
+\* position pos, which is `leaf` -- and are built here.  "mode" is what compile() chose for it ("framed" / "plain").
+BigMember(b, i) == IF i = b.pos THEN b.leaf ELSE b.fill
+BigOp(b, i, l, r) ==
+  LET o == IF b.op = "mix" THEN <<"or", "and", "list">>[(i % 3) + 1] ELSE b.op IN
+  IF o = "or" THEN NOr(l, r) ELSE IF o = "and" THEN NAnd(l, r) ELSE NList(l, r)
+RECURSIVE BigBuild(_, _)
+BigBuild(b, i) == IF i = 1 THEN BigMember(b, 1) ELSE BigOp(b, i, BigBuild(b, i - 1), BigMember(b, i))
+TreeOf(r) == IF "big" \in DOMAIN r THEN BigBuild(r.big, r.big.n) ELSE r.t
 Judge(r) ==
   IF r.st # "ok" THEN <<"panic">>
-  ELSE (IF r.action = HasAction(r.t) THEN <<>> ELSE <<"has-action">>)
-       \o (IF r.framed = NeedsFramed(r.t) THEN <<>> ELSE <<"needs-framed">>)
+  ELSE LET t == TreeOf(r) IN
+       (IF r.action = HasAction(t) THEN <<>> ELSE <<"has-action">>)
+       \o (IF r.framed = NeedsFramed(t) THEN <<>> ELSE <<"needs-framed">>)
+       \o (IF "mode" \in DOMAIN r /\ r.mode \in {"framed", "plain"} /\ (r.mode = "framed") # NeedsFramed(t) THEN <<"mode-mismatch">> ELSE <<>>)
+       \o (IF "mode" \in DOMAIN r /\ r.mode = "panic" THEN <<"compile-panic">> ELSE <<>>)
 Init == vIdx \in 1..Stride
 Next == vIdx + Stride <= NRec /\ vIdx' = vIdx + Stride
 Emit == vIdx <= NRec => PrintT(ToJson([idx |-> vIdx, kinds |-> Judge(Rec[vIdx])]))
